@@ -1542,6 +1542,8 @@ impl Vm {
         };
 
         self.active_fiber_mut()
+            .close_upvalues(handler.init_stack_size);
+        self.active_fiber_mut()
             .stack
             .truncate(handler.init_stack_size);
         self.push(exc_object);
